@@ -16,5 +16,6 @@ func main() {
 	defer core.Cleanup()
 	dbreplay.Main(rep, args, "C03", []dbreplay.Stage{
 		{Name: "wal-3pg-4ops-exhaustive", Cfg: "MC_DBFile_wal.cfg", Timeout: 15 * time.Minute, MaxKeep: core.Pick(args, 1500, 12000)},
+		{Name: "wal-beyond-3pg-4ops-exhaustive", Cfg: "MC_DBFile_wal_beyond.cfg", Timeout: 15 * time.Minute, MaxKeep: core.Pick(args, 800, 8000)},
 	})
 }
